@@ -109,6 +109,17 @@ class H:
         return r
 
 
+def maybe_tables(h, rng, prob=0.35):
+    """with probability `prob` request arithmetic tables first (prime fields p <= 1021, extension fields q <= 4096)"""
+    d = h.desc
+    if d[0] == "B":
+        return
+    q = desc_card(d)
+    if (d[0] == "P" and q <= 1021) or (d[0] == "E" and q <= 4096):
+        if rng.random() < prob:
+            h.ops.append("tables@0 1 1 -")
+
+
 def exps(rng, q):
     c = [0, 1, 2, 3, q - 2, q - 1, q, q + 1, 2 * (q - 1), 3 * (q - 1) + 1, 2 ** 63, 2 ** 64 - 1, 2 ** 64 - 2, 2 ** 32,
          rng.randrange(2 ** 64), rng.randrange(2 ** 64), rng.randrange(1, 200), (q - 1) * rng.randrange(1, 1000)]
@@ -138,6 +149,10 @@ def gen_C19(rng, tier):
     for a in range(0, 300):
         L.append("aux bsqrt %d" % a)
         L.append("aux blog2 %d" % a)
+    for a in [2 ** 64 - 1, 2 ** 64 - 59, (2 ** 32 - 1) ** 2, (2 ** 32 - 1) ** 2 + 1, 2 ** 64 - 2 ** 33 + 2, 2 ** 63, 2 ** 63 - 1, 2 ** 62,
+              2 ** 62 + 1, 2 ** 32, 2 ** 32 - 1, 2 ** 32 + 1] + [2 ** k for k in range(0, 64)] + [2 ** k - 1 for k in range(1, 65)] + [2 ** k + 1 for k in range(1, 64)]:
+        L.append("aux bsqrt %d" % a)
+        L.append("aux blog2 %d" % a)
     for _ in range(1500):
         a = rng.randrange(2 ** rng.randrange(1, 65))
         L.append("aux bsqrt %d" % a)
@@ -162,6 +177,14 @@ def gen_C19(rng, tier):
                 L.append("aux fact %d" % p ** k)
         L.append("aux fact %d" % (p * 3))
         L.append("aux fpp %d" % (p * 3 % 2 ** 64))
+    for p in [2, 3, 5, 7, 11, 13, 17, 31]:
+        k = 1
+        while p ** k < 2 ** 64:
+            for r in (3, 5, 7, 11, 13, 17, 19, 23):
+                if r > p and p ** k * r < 2 ** 64 and (k >= 10 or big) and k % 2 == 0:
+                    L.append("aux fpp %d" % (p ** k * r))
+                    L.append("aux fact %d" % (p ** k * r))
+            k += 1
     for p in [2, 3, 5, 7, 11, 13, 251, 257, 65521]:
         k = 1
         while p ** k < 2 ** 64:
@@ -304,8 +327,25 @@ def gen_C09(rng, tier):
     for _ in range(600 if big else 150):
         desc = pick_field(rng, small=0.9, mid=0.1)
         h = H(rng, desc, bspec="B:%s:58:59:-" % rng.choice(orders))
+        qs = []
         for _ in range(3):
             q = h.bpoly(nterms=rng.randrange(0, 9), box=6)
+            h.ops.append("obs %s" % q)
+            qs.append(q)
+        one = h.elem("1")
+        for _ in range(4):
+            q = rng.choice(qs)
+            # move a term: remove one monomial and create another (term count unchanged), or add/sub
+            k = rng.random()
+            if k < 0.4:
+                c = h.newe(); d1 = (rng.randrange(6), rng.randrange(6))
+                h.ops.append("%s=coef %s %d:%d" % (c, q, d1[0], d1[1]))
+                h.ops.append("dec %s %d:%d %s" % (q, d1[0], d1[1], c))
+                h.ops.append("inc %s %d:%d %s" % (q, rng.randrange(7), rng.randrange(7), one))
+            elif k < 0.7:
+                h.ops.append("%s %s %s" % (rng.choice(["add", "sub"]), q, rng.choice(qs)))
+            else:
+                h.ops.append("setcoef %s %d:%d %s" % (q, rng.randrange(7), rng.randrange(7), rng.choice([one, h.elem()])))
             h.ops.append("obs %s" % q)
         L.append(h.line())
     return L
@@ -346,6 +386,7 @@ def gen_C01(rng, tier):
             L.append(h.line())
         for _ in range(reps):
             h = H(rng, desc)
+            maybe_tables(h, rng)
             regs = [h.elem() for _ in range(4)]
             for _ in range(14):
                 a, b = rng.choice(regs), rng.choice(regs)
@@ -368,6 +409,21 @@ def gen_C01(rng, tier):
                     h.ops.append("eq %s %s" % (a, b))
                 else:
                     h.ops.append("show %s" % a)
+            # results at the edges of the representation: products / sums / differences congruent to
+            # small negatives and small positives (prime fields: computed with Python's modular inverse)
+            if desc[0] == "P" and q > 3:
+                for _ in range(3):
+                    a = rng.randrange(1, q)
+                    k = rng.choice([1, 1, 2, 3, q - 1, q - 2])       # target residue -k resp. k
+                    b = (-k * pow(a, -1, q)) % q
+                    ra, rb = h.elem(str(a)), h.elem(str(b))
+                    h.ops.append("%s=times %s %s" % (h.newe(), ra, rb))
+                    h.ops.append("%s=times %s %s" % (h.newe(), rb, ra))
+                    rc = h.elem(str((-k - a) % q))
+                    h.ops.append("%s=plus %s %s" % (h.newe(), ra, rc))
+                    rd = h.elem(str((a + k) % q))
+                    h.ops.append("%s=minus %s %s" % (h.newe(), ra, rd))
+                    c2 = h.newe(); h.ops.append("%s=copy %s" % (c2, ra)); h.ops.append("mult %s %s" % (c2, rb))
             # constructors
             h.ops.append("%s=u@0 %d" % (h.newe(), rng.choice([0, 1, q - 1, q, q + 1, 2 ** 64 - 1, rng.randrange(2 ** 64)]) % 2 ** 64))
             h.ops.append("%s=s@0 %d" % (h.newe(), rng.choice([0, -1, 1, -(2 ** 63), 2 ** 63 - 1, -rng.randrange(2 ** 63), rng.randrange(2 ** 63)])))
@@ -403,6 +459,7 @@ def gen_C02(rng, tier):
         q = desc_card(desc)
         if q <= (4096 if big else 128):
             h = H(rng, desc)
+            maybe_tables(h, rng, prob=0.5)
             for e in enum_encs(desc):
                 a = h.elem(e)
                 i = h.newe()
@@ -414,6 +471,7 @@ def gen_C02(rng, tier):
             L.append(h.line())
         for _ in range(10 if big else 3):
             h = H(rng, desc)
+            maybe_tables(h, rng, prob=0.5)
             for _ in range(4):
                 a = h.elem()
                 i = h.newe()
@@ -466,6 +524,23 @@ def gen_C05(rng, tier):
             r = h.newu()
             h.ops.append("%s=%s@0" % (r, rng.choice(["zero", "one"])))
             ps.append(r)
+        if rng.random() < 0.35:
+            # constructor from element objects, some of them repeated; then in-place operations on the
+            # polynomial and on the elements (a constructor that keeps the caller's objects shows here)
+            regs = [rng.choice(es[:2] + [h.elem()]) for _ in range(rng.randrange(1, 5))]
+            r = h.newu(); h.ops.append("%s=regs@0 %s" % (r, ",".join(regs))); ps.append(r)
+            h.ops.append("%s %s %s" % (rng.choice(["setscale", "setscale"]), r, rng.choice(es[:2])))
+            h.ops.append("setneg %s" % r)
+            h.ops.append("add %s %s" % (r, rng.choice(ps)))
+            h.ops.append("add %s %s" % (regs[0], es[1]))
+            h.ops.append("obs %s" % r)
+        if rng.random() < 0.3:
+            # zero the receiver in place, then grow it again (stale storage must not come back)
+            a0 = rng.choice(ps)
+            h.ops.append(rng.choice(["setzero %s" % a0, "setscale %s %s" % (a0, es[2]), "sub %s %s" % (a0, a0)]))
+            h.ops.append(rng.choice(["add %s %s" % (a0, rng.choice(ps)), "inc %s %d %s" % (a0, rng.randrange(1, 6), es[3]),
+                                     "setcoef %s %d %s" % (a0, rng.randrange(1, 6), es[0])]))
+            h.ops.append("obs %s" % a0)
         for _ in range(12):
             a, b = rng.choice(ps), rng.choice(ps)
             k = rng.random()
@@ -551,6 +626,13 @@ def umod_spec(rng, desc, ngens=None):
             cs[-1] = "1"
         return cs
     g = rp(d)
+    if rng.random() < 0.25:
+        # a modulus that is not squarefree: X^m, or (X + c)^2 over prime fields (nilpotent residues exist)
+        if desc[0] == "P" and rng.random() < 0.5:
+            pch = int(desc.split(":")[1]); c = rng.randrange(pch)
+            g = [str(c * c % pch), str(2 * c % pch), "1"]; d = 2
+        else:
+            d = rng.choice([2, 3, 4, 5]); g = ["0"] * d + ["1"]
     return "U:%s:%s" % (hexs(rng.choice(["X", "x", "T", "a" if desc[0] == "P" else "z"])), "/".join(g)), d
 
 
@@ -570,6 +652,16 @@ def gen_C07(rng, tier):
         r = h.upoly(deg=rng.choice([d, 2 * d + 1]), ring=0)
         h.ops.append("embed %s @1 1" % r); ps.append(r)
         es = [h.elem() for _ in range(2)]
+        # the variable itself and small powers of it (nilpotent when the modulus is a power)
+        x = h.newu(); h.ops.append("%s=nats@1 0,1" % x); ps.append(x)
+        for n in (2, 3, 4, 5, 6, 7):
+            if rng.random() < 0.5:
+                h.ops.append("%s=pow %s %d" % (h.newu(), rng.choice([x, ps[0]]), n))
+        # constructor from (repeated) element objects, degree >= deg g, then in-place use of both
+        regs = [rng.choice(es) for _ in range(rng.randrange(d, 2 * d + 2))]
+        rr = h.newu(); h.ops.append("%s=regs@1 %s" % (rr, ",".join(regs))); ps.append(rr)
+        rr2 = h.newu(); h.ops.append("%s=regs@1 %s" % (rr2, ",".join(regs[:d + 1]))); ps.append(rr2)
+        h.ops.append("obs %s" % rr)
         for _ in range(rng.randrange(4, 25)):
             a, b = rng.choice(ps), rng.choice(ps)
             k = rng.random()
@@ -926,10 +1018,49 @@ def gen_C16(rng, tier):
         desc = pick_field(rng, small=0.7, mid=0.25)
         gens = "-"
         h = H(rng, desc, bspec=bspec(rng), snap=True)
+        maybe_tables(h, rng, prob=0.4)
         es = [h.elem() for _ in range(3)]
         ps = [h.upoly(deg=rng.choice([0, 1, 2, 4])) for _ in range(3)]
         qs = [h.bpoly(nterms=rng.choice([0, 1, 2, 3]), box=3) for _ in range(3)]
         ids = []
+        one = h.elem("1"); zero = h.elem("0")
+        for _ in range(rng.randrange(1, 4)):
+            pat = rng.random()
+            if pat < 0.3:
+                # an element handed to a polynomial (also a zero one, below the leading degree), then
+                # the polynomial and the element are modified in place
+                z = rng.choice([zero, zero, one, rng.choice(es)])
+                zc = h.newe(); h.ops.append("%s=copy %s" % (zc, z))
+                f = rng.choice(ps)
+                h.ops.append("%s %s %d %s" % (rng.choice(["setcoef", "setcoef", "inc", "dec"]), f, rng.randrange(0, 3), zc))
+                h.ops.append("add %s %s" % (f, rng.choice(ps)))
+                h.ops.append("add %s %s" % (zc, one))
+                h.ops.append("obs %s" % f)
+                g = rng.choice(qs)
+                zc2 = h.newe(); h.ops.append("%s=copy %s" % (zc2, rng.choice([one, rng.choice(es)])))
+                h.ops.append("%s %s %d:%d %s" % (rng.choice(["setcoef", "inc", "dec"]), g, rng.randrange(3), rng.randrange(3), zc2))
+                h.ops.append("add %s %s" % (g, rng.choice(qs)))
+                h.ops.append("add %s %s" % (zc2, one))
+                h.ops.append("obs %s" % g)
+            elif pat < 0.6:
+                # value-returning element operation, result modified in place, same operation again
+                a, b = rng.choice(es), rng.choice(es)
+                op = rng.choice(["times %s %s" % (a, b), "inv %s" % a, "plus %s %s" % (a, b), "pow %s 3" % a, "trace %s" % a, "neg %s" % a])
+                r1 = h.newe(); h.ops.append("%s=%s" % (r1, op))
+                h.ops.append("%s %s %s" % (rng.choice(["add", "sub", "mult"]), r1, rng.choice([one, a, b])))
+                h.ops.append("setneg %s" % r1)
+                r2 = h.newe(); h.ops.append("%s=%s" % (r2, op))
+                r3 = h.newe(); h.ops.append("%s=times %s %s" % (r3, a, rng.choice(es)))
+                es += [r1, r2, r3]
+            elif pat < 0.8:
+                # constructors from element registers (repeated), then in-place changes on both sides
+                regs = [rng.choice(es) for _ in range(rng.randrange(1, 4))]
+                r = h.newu(); h.ops.append("%s=regs@0 %s" % (r, ",".join(regs))); ps.append(r)
+                h.ops.append("setscale %s %s" % (r, rng.choice(es)))
+                h.ops.append("add %s %s" % (regs[0], one))
+                rq = h.newb(); h.ops.append("%s=regs@0 %s" % (rq, "/".join("%d:%d:%s" % (i, rng.randrange(3), e) for i, e in enumerate(regs)))); qs.append(rq)
+                h.ops.append("setscale %s %s" % (rq, rng.choice(es)))
+                h.ops.append("add %s %s" % (regs[-1], one))
         for _ in range(rng.randrange(8, 30)):
             k = rng.random()
             if k < 0.25:
@@ -1080,6 +1211,7 @@ def gen_C17(rng, tier):
         if quot:
             uspec, _ = umod_spec(rng, desc)
         h = H(rng, desc, uspec=uspec, bspec=bspec(rng), snap=True)
+        maybe_tables(h, rng, prob=0.4)
         good_e = [h.elem(), h.elem()]
         z = h.elem("0")
         bad_e = []
@@ -1209,6 +1341,18 @@ def gen_C18(rng, tier):
         es = [h.elem() for _ in range(3)] + [h.elem("0"), h.elem("1")]
         ps = [h.upoly(deg=rng.choice([1, 2, 4])) for _ in range(2)]
         qs = [h.bpoly(nterms=rng.choice([1, 2, 3]), box=3) for _ in range(2)]
+        if rng.random() < 0.3:
+            # a receiver that belongs to a second field object (with its own tables) is re-used for a
+            # product of elements of the first field object, and vice versa
+            o1 = h.newe(); h.ops.append("%s=enc@1 %s" % (o1, rand_elem(desc, rng)))
+            o2 = h.newe(); h.ops.append("%s=enc@1 %s" % (o2, rand_elem(desc, rng, special=0)))
+            h.ops.append("tables@1 %d 1 -" % rng.randrange(2))
+            h.ops.append("prod %s %s %s" % (o1, es[0], es[1]))
+            h.ops.append("prod %s %s %s" % (o1, es[2], es[4]))
+            c0 = h.newe(); h.ops.append("%s=copy %s" % (c0, es[0]))     # copies: es[...] stay in field object 0
+            c1 = h.newe(); h.ops.append("%s=copy %s" % (c1, es[1]))
+            h.ops.append("prod %s %s %s" % (c0, o2, o2))
+            h.ops.append("mult %s %s" % (c1, o2))
         nops = rng.randrange(6, 22)
         when = sorted({rng.randrange(0, nops) for _ in range(rng.choice([1, 1, 2, 3]))})
         for i in range(nops):
